@@ -6,6 +6,7 @@ import (
 	"fmt"
 	"io"
 	"net"
+	"os"
 	"strings"
 	"time"
 
@@ -770,6 +771,17 @@ func C13(args []string) {
 		return
 	}
 	scns := c13Scenarios(r.Thorough())
+	deepBound := 0
+	if v := os.Getenv("VERIF_DEEP_BOUND"); v != "" { // development aid: only the deep scenarios, to the given bound
+		fmt.Sscan(v, &deepBound)
+		var only []c13Scn
+		for _, sc := range scns {
+			if sc.Deep {
+				only = append(only, sc)
+			}
+		}
+		scns = only
+	}
 	maxBound := 1
 	if r.Thorough() {
 		maxBound = 2
@@ -789,6 +801,9 @@ func C13(args []string) {
 		if sc.Deep {
 			e.FromMark, e.MaxExec = "connected", 80000
 			maxBound++
+			if deepBound > 0 {
+				maxBound, e.MaxExec = deepBound, 3000000
+			}
 		}
 		if sc.Kind == "malformed" && (sc.Mal == 3 || sc.Mal == 7) {
 			maxBound, e.MaxExec = 0, 20 // the library allocates the announced DataLen (up to 4 GiB) per execution
